@@ -372,7 +372,7 @@ func r14Writer(c *RuleCtx) {
 		width := widthOf(v.Type())
 		switch x := v.(type) {
 		case *ssa.Parameter:
-			role = x.Name()
+			role = canonParamName(x)
 		case *ssa.Const:
 			if k, ok := constUint64(x); ok {
 				if ver, ok2 := c.p.ZapTypes.Scope().Lookup("Version").(*types.Const); ok2 && ver.Val().String() == fmt.Sprint(k) {
@@ -730,7 +730,7 @@ func r14CallSites(c *RuleCtx) {
 	// parameter position by role
 	roles := []string{}
 	for _, p := range pf.Params {
-		roles = append(roles, p.Name())
+		roles = append(roles, canonParamName(p))
 	}
 	n := 0
 	for _, cs := range c.p.callersOf(pf) {
@@ -911,7 +911,7 @@ func r14CallSites(c *RuleCtx) {
 		if cv, ok := root(args[3]).(*ssa.Convert); ok {
 			if call, ok := cv.X.(*ssa.Call); ok {
 				if b, ok := call.Call.Value.(*ssa.Builtin); ok && b.Name() == "len" {
-					if p, ok := call.Call.Args[0].(*ssa.Parameter); ok && p.Name() == "results" {
+					if p, ok := call.Call.Args[0].(*ssa.Parameter); ok && canonParamName(p) == "results" {
 						ndOK = true
 					}
 				}
